@@ -1,6 +1,6 @@
 (* Property C16 — compiled models coexist in one process without interfering. *)
 From Coq Require Import String ZArith List Bool Arith.
-From TLX Require Import Model.Bits Model.CLang Model.Proc Gen.LibIO Gen.WrapperParams Proofs.C16Facts Model.Threads Gen.Storage Proofs.ThreadsFacts Model.ProcAlloc Proofs.ProcAllocFacts Model.Netlist Model.GenDense Proofs.ThreadsDense Model.ConvNet Model.GenNet Proofs.ThreadsNet.
+From TLX Require Import Model.Bits Model.CLang Model.Proc Gen.LibIO Gen.WrapperParams Proofs.C16Facts Model.Threads Gen.Storage Proofs.ThreadsFacts Model.ProcAlloc Proofs.ProcAllocFacts Model.Netlist Model.GenDense Proofs.ThreadsDense Model.ConvNet Model.GenNet Proofs.ThreadsNet Model.Wrapper Proofs.WrapperFacts Proofs.ThreadsWrapper Proofs.ThreadsCounts.
 Import ListNotations.
 
 (* the library calls made by compile(save) and load in the current source *)
@@ -107,6 +107,24 @@ Theorem C16_threads_spatial_networks :
               finished t = true /\ Forall2 (nresult_ok W ms) calls (t_results t).
 Proof. exact threads_spatial_networks. Qed.
 
+(* a whole apply_logic_net call (pack every word, logic_net, bit-sliced adder, unpack) made by thread j into the generated program of a
+   well-formed dense model while other threads run: under every schedule that gives the thread its turns, the counts the wrapper computes
+   from the concurrently obtained logic_net results are the per-class counts of the reference circuit for every row of the batch *)
+Theorem C16_threads_wrapper_counts :
+  forall (W k : nat) (m : dense_model) (libs : list prog) (inits : list (list (nat * list Z) * @mem Z * (nat -> @mem Z))) (sh : nat -> @mem Z)
+         (sched : list nat) j l inp len gp gt,
+    (1 < W)%nat -> wf_dense_model m = true -> (Z.of_nat (gsize (out_width m) k) < 2 ^ 31)%Z ->
+    nth_error libs l = Some (gen_dense m) ->
+    Forall (good_callsZ (Z.of_nat W) libs) (map (fun x => fst (fst x)) inits) ->
+    nth_error inits j = Some (wrapper_calls W (dm_in m) l inp len, gp, gt) ->
+    list_sum (map (call_work libs) (wrapper_calls W (dm_in m) l inp len)) <= count_occ Nat.eq_dec sched j ->
+    let w0 := {| w_threads := map (fun x => fresh_thread (fst (fst x)) (snd (fst x)) (snd x)) inits; w_shared := sh |} in
+    exists t, nth_error (w_threads (run_scheduleZ (Z.of_nat W) (negb (private_storage buffer_storage)) libs w0 sched)) j = Some t /\
+              finished t = true /\
+              @all_some Z (map (fun o => Some (word_result W (out_width m) k o)) (t_results t))
+              = Some (WrapperFacts.expected W (dm_in m) (out_width m) k (eval_dense_net (dm_layers m)) inp len).
+Proof. exact threads_dense_counts. Qed.
+
 (* one thread, many calls: a call's result does not depend on what earlier calls left in `out` and in the buffers *)
 Theorem C16_stale_memory : forall (W : Z) (p : prog) (inp out : list Z) (stale : @mem Z),
   execZ W p inp = Some out ->
@@ -175,3 +193,4 @@ Eval compute in "PA:C16_policies_fresh"%string. Print Assumptions C16_policies_f
 Eval compute in "PA:C16_cached_by_identity_refuted"%string. Print Assumptions C16_cached_by_identity_refuted.
 Eval compute in "PA:C16_threads_dense_networks"%string. Print Assumptions C16_threads_dense_networks.
 Eval compute in "PA:C16_threads_spatial_networks"%string. Print Assumptions C16_threads_spatial_networks.
+Eval compute in "PA:C16_threads_wrapper_counts"%string. Print Assumptions C16_threads_wrapper_counts.
